@@ -72,18 +72,12 @@ Definition trig_rec_hl (ev : env) (s : st) (o : op) : bool :=
   | _ => false
   end.
 
-(* k = 4 (sticky): an earlier rename moved an entry that carried a hard link id — the copy made by
-   moveSelfEntry has no id but the same chunks, so the chunks are shared outside the link record *)
+(* k = 4 (sticky): an earlier operation detached a name from its link record but may have kept the
+   record's chunks in the name's new plain entry — a rename of an entry whose blob carries a link id
+   (moveSelfEntry copies the chunks, not the id), or an entry without id written over such a name (the
+   two C21 findings).  From then on chunks can be shared outside any link record *)
 Definition renames_linked (ev : env) (s : st) (o : op) : bool :=
-  match o with
-  | Rename oldp newp =>
-      match nfind s oldp with
-      | Some e => negb (h_hl e =? 0) ||
-                  (h_dir e && existsb (fun c => negb (h_hl (snd c) =? 0)) (list_children s oldp))
-      | None => false
-      end
-  | _ => false
-  end.
+  trig_rename_linked s o || trig_overwrite_linked s o.
 
 Definition classify (ev : env) (detached : bool) (s : st) (o : op) : option N :=
   if trig_local ev s o then (if via_update o then Some 3 else Some 0)
@@ -128,27 +122,15 @@ Definition op_path (o : op) : path :=
 Definition fresh_op (ev : env) (s : st) (o : op) : bool :=
   forallb (fun c => mem c (reach_at ev s (op_path o)) || negb (mem c (refs ev s))) (reach ev (op_chunks o)).
 
-(* a link id drawn by the mount (16 random bytes) is not in use *)
-Definition fresh_id (s : st) (id : N) : bool :=
-  negb (id =? 0) &&
-  match kv_get s id with Some _ => false | None => true end &&
-  forallb (fun kv => negb (h_hl (snd kv) =? id)) (names s).
-
-Definition not_dir_at (ev : env) (s : st) (p : path) : bool :=
-  match find_entry ev s p with Some e => negb (h_dir e) | None => true end.
-
-(* the client assumptions for one operation:
-   chunks are non-empty and end below MaxInt64; every manifest chunk is readable; chunk ids are fresh;
-   CreateEntry/UpdateEntry requests of clients other than the mount carry no link id, and a
-   directory entry carries no chunks (nor is a directory appended or written to); the mount
-   links files, with a fresh id *)
+(* the client assumptions for one operation: those of C21 (requests of other clients carry no link
+   id; the mount links an existing file to a new name with an unused id; only files are appended
+   or written to), and: chunks are non-empty and end below MaxInt64; every manifest chunk is
+   readable; chunk ids are fresh; a directory entry carries no chunks *)
 Definition op_ok (ev : env) (s : st) (o : op) : bool :=
   forallb chunk_ok (op_chunks o) && manifests_known ev (op_chunks o) && fresh_op ev s o &&
+  c21_op_ok ev s o &&
   match o with
-  | Create _ e _ | Update _ e =>
-      (h_hl e =? 0) && (negb (h_dir e) || match h_chunks e with [] => true | _ => false end)
-  | Link oldp _ id => fresh_id s id && not_dir_at ev s oldp
-  | Append p _ | Write p _ _ _ => not_dir_at ev s p
+  | Create _ e _ | Update _ e => negb (h_dir e) || match h_chunks e with [] => true | _ => false end
   | _ => true
   end.
 
